@@ -1,12 +1,11 @@
 (* C10 - H264 packetization is lossless and RFC 6184-shaped.
-   C10_lossless_partial: for any sequence of valid NAL units (and C10_access_unit: for any Annex-B
-   stream of them), any payloader state and any MTU >= 3, feeding the payloader's output in order
-   to one H264Packet (Annex-B or AVC mode, whatever its fragment buffer held) yields exactly the
-   units the hold-back rule [deliver] delivers - AUD and filler dropped, SPS and PPS held until
-   the next other unit and then sent first - each behind the receiver's prefix, and leaves the
-   payloader in the state [deliver] says.  "Partial": parameter sets are assumed small enough
-   that a held pair fits one STAP-A; otherwise they are dropped (C10_lossless_refuted,
-   KF-C10-stapa-drop). *)
+   C10_lossless: for any sequence of valid NAL units (and C10_access_unit: for any Annex-B stream
+   of them), any payloader state reachable on valid input (held_valid: the parameter sets it holds
+   are valid units) and any MTU 3..65535, feeding the payloader's output in order to one H264Packet
+   (Annex-B or AVC mode, whatever its fragment buffer held) yields exactly the units the hold-back
+   rule [deliver] delivers - AUD and filler dropped, SPS and PPS held until the next other unit and
+   then sent first (as one STAP-A when it fits the MTU, otherwise each on its own) - each behind
+   the receiver's prefix, and leaves the payloader in the state [deliver] says. *)
 From Coq Require Import ZArith List.
 From RTP Require Import Base.Res Base.ListX Base.Own Model.AnnexB Model.H264 Proofs.AnnexBSplit Proofs.C10_H264 Proofs.C10_Lossless.
 Import ListNotations.
@@ -46,19 +45,19 @@ Theorem C10_fua_reassembly : forall avc nri ty fs cs,
 Proof. exact depack_fua. Qed.
 Print Assumptions C10_fua_reassembly.
 
-Theorem C10_lossless_partial : forall mtu avc, 3 <= mtu -> forall ns st,
-  Forall valid_nal ns -> Forall (param_small mtu) ns -> held_small mtu st ->
+Theorem C10_lossless : forall mtu avc, 3 <= mtu <= 65535 -> forall ns st,
+  Forall valid_nal ns -> held_valid st ->
   exists fs, h264_nalus mtu st ns = Ok (fst (deliver_all st ns), fs) /\
-    held_small mtu (fst (deliver_all st ns)) /\
+    held_valid (fst (deliver_all st ns)) /\
     forall stale, exists stale',
       depack (mkH264Pkt avc stale) (map own_bytes fs)
       = Ok (mkH264Pkt avc stale', concat (map (prefixed avc) (snd (deliver_all st ns)))).
 Proof. exact nalus_lossless. Qed.
-Print Assumptions C10_lossless_partial.
+Print Assumptions C10_lossless.
 
-Theorem C10_access_unit : forall mtu avc b n t st, 3 <= mtu ->
+Theorem C10_access_unit : forall mtu avc b n t st, 3 <= mtu <= 65535 ->
   AnnexBSplit.valid_nal n -> Forall (fun x => AnnexBSplit.valid_nal (snd x)) t ->
-  Forall valid_nal (n :: map snd t) -> Forall (param_small mtu) (n :: map snd t) -> held_small mtu st ->
+  Forall valid_nal (n :: map snd t) -> held_valid st ->
   exists fs, h264_payload st mtu (Some (stream ((b, n) :: t)))
              = Ok (fst (deliver_all st (n :: map snd t)), fs) /\
     forall stale, exists stale',
@@ -78,19 +77,15 @@ Example C10_nonvacuous :
   fs = [Own [28 + 96; 128 + 5; 1; 2; 3]; Own [124; 5; 4; 5; 6]; Own [124; 64 + 5; 7]].
 Proof. do 2 eexists. split; [vm_compute; reflexivity|reflexivity]. Qed.
 
-(* KF-C10-stapa-drop, as a witness evaluated on the model (vm_compute): MTU 8, a 3-byte SPS and a
-   3-byte PPS followed by an IDR slice.  The STAP-A of the held pair would be 11 bytes; it is
-   neither sent nor kept, so the two units are lost. *)
-From RTP Require Import Base.Own.
-Theorem C10_lossless_refuted :
-  exists mtu au st', h264_payload (mkH264Pay false None None) mtu (Some au) = Ok (st', [Own [101; 5; 6]]) /\
-    au = [0; 0; 0; 1; 103; 1; 2; 0; 0; 0; 1; 104; 3; 4; 0; 0; 0; 1; 101; 5; 6] /\
-    hp_sps st' = None /\ hp_pps st' = None.
-Proof.
-  exists 8, [0; 0; 0; 1; 103; 1; 2; 0; 0; 0; 1; 104; 3; 4; 0; 0; 0; 1; 101; 5; 6]. eexists.
-  split; [vm_compute; reflexivity|]. repeat split.
-Qed.
-Print Assumptions C10_lossless_refuted.
+(* the former finding KF-C10-stapa-drop (fixed in /repo): at MTU 8 the STAP-A of a 3-byte SPS and a
+   3-byte PPS would be 11 bytes; the pair is now sent as two single NAL unit packets in front of
+   the slice instead of being dropped.  held_valid holds of a fresh payloader. *)
+Example C10_small_mtu_parameter_sets :
+  h264_payload (mkH264Pay false None None) 8
+    (Some [0; 0; 0; 1; 103; 1; 2; 0; 0; 0; 1; 104; 3; 4; 0; 0; 0; 1; 101; 5; 6])
+  = Ok (mkH264Pay false None None, [Own [103; 1; 2]; Own [104; 3; 4]; Own [101; 5; 6]]) /\
+  held_valid (mkH264Pay false None None).
+Proof. split; [vm_compute; reflexivity|apply held_valid_fresh]. Qed.
 
 (* ---- the decoder against an independent RFC 6184 encoder (Spec/Rfc6184.v): any plan of single
    NAL unit packets, STAP-As of any number of units and FU-A runs cut anywhere (empty fragments
